@@ -27,6 +27,7 @@ INTENDED = {'nat_eval': S.NAT, 'int_eval': S.INT, 'int_const_ineq': S.INT, 'real
             'real_compare': S.REAL, 'real_const_ineq': S.REAL, 'real_norm': S.REAL, 'real_eq_comparison': S.REAL,
             'const_inequality': S.REAL}
 RELS = ['less', 'less_eq', 'greater', 'greater_eq']
+WHOLE = [0]
 
 
 def shards(tier, seed):
@@ -394,6 +395,40 @@ def goal_eq_comparison(rng):
     return A.rel('equals', S.BOOL, lhs, rhs)
 
 
+def whole_double_goal(rng):
+    """an irrational value whose DOUBLE is a whole number: an integer plus an irrational perturbation far below one
+    ulp (sqrt 2 / 10^20 + 1), or an irrational constant above 2^53 (10^20 * sqrt 2, exp 40) compared with the integer
+    its double happens to be.  Any decision procedure that looks at the double sees an exact-looking integer."""
+    import math
+    T = S.REAL
+    irr_s, irr_f = rng.choice([(('comb', A.c('sqrt', S.fun(T, T)), A.num(T, 2)), math.sqrt(2)),
+                               (('comb', A.c('sqrt', S.fun(T, T)), A.num(T, 3)), math.sqrt(3)),
+                               (A.c('pi', T), math.pi),
+                               (('comb', A.c('exp', S.fun(T, T)), A.num(T, 1)), math.e)])
+    pw = lambda k: S.mk_comb(A.c('power', S.funs(T, S.NAT, T)), A.num(T, 10), A.num(S.NAT, k))
+    if rng.random() < 0.55:
+        k, n = rng.randrange(17, 26), rng.choice([1, 2, 3, 7, 10])
+        lhs = A.binop('plus', T, A.binop('real_divide', T, irr_s, pw(k)), A.num(T, n))
+        rel = rng.choice(['equals', 'less_eq', 'less', 'greater', 'greater_eq', 'nequals'])
+        rhs = A.num(T, n)
+    elif rng.random() < 0.7:
+        k = rng.randrange(17, 23)
+        lhs = A.binop('times', T, pw(k), irr_s)
+        fl = float(10 ** k) * irr_f
+        rhs = A.num(T, int(fl))
+        rel = rng.choice(['equals', 'less_eq', 'greater_eq', 'nequals'])
+    else:
+        e_ = rng.randrange(38, 46)
+        lhs = ('comb', A.c('exp', S.fun(T, T)), A.num(T, e_))
+        rhs = A.num(T, int(math.exp(e_)))
+        rel = rng.choice(['equals', 'less_eq', 'greater_eq', 'nequals'])
+    if rng.random() < 0.5 and rel not in ('equals', 'nequals'):
+        lhs, rhs = rhs, lhs
+    if rel == 'nequals':
+        return A.neg_p(A.rel('equals', T, lhs, rhs))
+    return A.rel(rel, T, lhs, rhs)
+
+
 def make_goal(rng, macro):
     if macro in ('nat_eval', 'int_eval', 'real_eval'):
         return goal_eval(rng, macro)
@@ -403,7 +438,10 @@ def make_goal(rng, macro):
         return goal_compare(rng, macro)
     if macro == 'const_inequality':
         r = rng.random()
-        if r < 0.2:
+        if r < 0.1:
+            WHOLE[0] += 1
+            return whole_double_goal(rng)
+        if r < 0.25:
             return float_neighbour_goal(rng, macro)
         if r < 0.35:
             return trig_goal(rng)
